@@ -61,8 +61,10 @@
     fn verif_oracle_viterbi_minimal() {
         let mut failures = Vec::new();
         let mut cases = 0usize;
-        let mats = [[0i16, 0, 0, 0], [0, 5, -3, 2], [4, -6, 7, 1]];
-        for m in mats.iter() {
+        // small costs, and costs / connection costs at the ends of the i16 range (an edge cost then exceeds i16; sums stay far below i32)
+        let mats = [[0i16, 0, 0, 0], [0, 5, -3, 2], [4, -6, 7, 1], [32767, 5000, -32768, -5000]];
+        for (mi, m) in mats.iter().enumerate() {
+            let big = mi == 3;
             let bytes = matrix(*m);
             let conn = ConnectionMatrix::from_offset_size(&bytes, 0, 2, 2).unwrap();
             for len in 1..=3usize {
@@ -74,7 +76,7 @@
                     for (k, (b, e)) in spans.iter().enumerate() {
                         let pick = c % 3; c /= 3;
                         if pick == 0 { continue; }
-                        let cost: i16 = if pick == 1 { 3 } else { -4 + k as i16 };
+                        let cost: i16 = if big { if pick == 1 { 30000 } else { -30000 + k as i16 } } else if pick == 1 { 3 } else { -4 + k as i16 };
                         nodes.push((*b, *e, ((b + k) % 2) as u16, ((e + k) % 2) as u16, cost));
                     }
                     cases += 1;
